@@ -68,7 +68,7 @@ def digest_files(bld):
 
 def run_project(arg):
     decls, backend, ctxs = arg
-    files = sg.source_files()
+    files = sg.source_files(decls)
     files['build.bfg'] = sg.bfg_text(decls) + TRAILER
     files['extra/e1.c'] = 'int e1;\n'
     files['extra/e2.c'] = 'int e2;\n'
